@@ -84,55 +84,7 @@ pub fn gen_case(ops: &TypeOps, rng: &mut Rng, small: bool) -> Case {
 	Case { val, bytes, marks }
 }
 
-pub fn key(ops: &TypeOps, bytes: &[u8]) -> u64 {
-	hash64(&(ops.name, bytes))
-}
-
-pub fn replay_json(prop: &str, ops: &TypeOps, bytes: &[u8], extra: &[(&str, String)]) -> String {
-	let mut f = vec![("property", jstr(prop)), ("type", jstr(ops.name)), ("bytes", jstr(&hex(bytes)))];
-	for (k, v) in extra {
-		f.push((k, v.clone()));
-	}
-	jobj(&f)
-}
-
-pub fn sample_json(ops: &TypeOps, what: &str, bytes: &[u8], note: &str) -> String {
-	jobj(&[("type", jstr(ops.name)), ("case", jstr(what)), ("bytes", jstr(&hex(&bytes[..bytes.len().min(48)]))), ("len", bytes.len().to_string()), ("note", jstr(note))])
-}
-
-/// Compare a decoded value (already converted to `Val` by the bridge) with the model's value,
-/// both brought to the real type's canonical form.
-pub fn same_val(ops: &TypeOps, model: &Val, real: &Val) -> bool {
-	let m = (ops.canon)(model);
-	m == *real || m == (ops.canon)(real)
-}
-
-/// For types containing heaps the byte order of elements is unspecified: compare as a multiset by
-/// decoding the produced bytes with the model.
-pub fn bytes_conform(ops: &TypeOps, val: &Val, spec: &[u8], real: &[u8]) -> Result<(), String> {
-	if real == spec {
-		return Ok(());
-	}
-	if ops.has_tag("heap") {
-		if real.len() != spec.len() {
-			return Err(format!("heap encoding has {} bytes, specification {}", real.len(), spec.len()));
-		}
-		return match spec_decode(&ops.ty, real) {
-			Ok((v, used)) if used == real.len() && same_val(ops, &v, val) => Ok(()),
-			Ok(_) => Err("heap encoding decodes to a different multiset".into()),
-			Err(e) => Err(format!("heap encoding is not in the language: {:?}", e)),
-		};
-	}
-	let i = real.iter().zip(spec).position(|(a, b)| a != b).unwrap_or(real.len().min(spec.len()));
-	Err(format!(
-		"bytes differ from the specification at offset {} (produced {} bytes, specified {}): produced ..{} specified ..{}",
-		i,
-		real.len(),
-		spec.len(),
-		hex(&real[i.saturating_sub(2)..real.len().min(i + 6)]),
-		hex(&spec[i.saturating_sub(2)..spec.len().min(i + 6)])
-	))
-}
+pub use monitor::diff::{bytes_conform, key, replay_json, same_val, sample_json};
 
 pub fn finish(ctx: &Ctx, rep: &Report) {
 	rep.write(&ctx.out);
